@@ -270,3 +270,32 @@ def curvature_sign_rule(rule, w):
                     rule.violation(key, where, "terms copied without a sign change move from the %s to the %s list" % (g.iter.attr[1:4], tgt.attr[1:4]),
                                    "same list", pf.norm_expr(comp))
     return n
+
+
+def dead_refusal_rule(rule, w):
+    """A `raise` that refuses an unsupported combination must be reachable: the conjunction of
+    the conditions on its path (syntax-directed, with negated earlier arms) is satisfiable.  An
+    unsatisfiable one means an enclosing test already excludes the case the refusal was written
+    for - the combination is then silently accepted on another path."""
+    import itertools
+    m = w.mods["modeling"]
+    n = 0
+    for q, fn in m.funcs.items():
+        for x in pf._scope_nodes(fn):
+            if not isinstance(x, ast.Raise):
+                continue
+            conds = pf.path_condition(x)
+            p = pf.P_and(*conds) if conds else pf.P_TRUE
+            atoms = sorted(p.atoms())
+            if len(atoms) > 16:
+                continue
+            n += 1
+            key = "modeling.%s:raise reachable@%s" % (q, pf.norm_expr(x)[:50])
+            sat = any(p.ev(dict(zip(atoms, vals))) for vals in itertools.product((False, True), repeat=len(atoms)))
+            if sat:
+                rule.ok(key, m.where(x, fn))
+            else:
+                rule.violation(key, m.where(x, fn),
+                               "this refusal can never run: its path condition `%s` is contradictory, so the combination it was written for is accepted elsewhere"
+                               % repr(p)[:120], "a reachable raise", repr(p)[:120])
+    return n
